@@ -632,7 +632,18 @@ def clear_memos():
     for c in _MEMOS: c.clear()
 
 
-SHIMS = dict(sx__memo=sx_memo, sx__setitem=sx_setitem, sx__call=sx_call, sx__in=sx_in, sx__getitem=sx_getitem, sx__fmt=sx_fmt, sx__fstr=sx_fstr,
+def sx_strmeth(name):
+    real = getattr(str, name)
+    if name in ('maketrans',):
+        return real
+    def f(s, *a, **k):
+        if isinstance(s, SymStr): return getattr(s, name)(*a, **k)
+        return real(s, *a, **k)
+    f.__name__ = name
+    return f
+
+
+SHIMS = dict(sx__strmeth=sx_strmeth, sx__memo=sx_memo, sx__setitem=sx_setitem, sx__call=sx_call, sx__in=sx_in, sx__getitem=sx_getitem, sx__fmt=sx_fmt, sx__fstr=sx_fstr,
              sx__mod=sx_mod, sx__meth=sx_meth, sx__set=sx_set, sx__re=RE_SHIM)
 
 WRAP_CALLS = {'bytes', 'StringIO', 'isinstance', 'int', 'str', 'bool', 'hash', 'repr', 'type', 'set', 'frozenset', 'ord', 'chr'}
@@ -687,6 +698,12 @@ class Tr(ast.NodeTransformer):
             return ast.copy_location(ast.Call(ast.Name('sx__call', ast.Load()), [ast.Constant(node.func.id)] + node.args, node.keywords), node)
         if isinstance(node.func, ast.Attribute) and not (isinstance(node.func.value, ast.Call) and isinstance(node.func.value.func, ast.Name) and node.func.value.func.id == 'super'):
             return ast.copy_location(ast.Call(ast.Name('sx__meth', ast.Load()), [node.func.value, ast.Constant(self.mangle(node.func.attr))] + node.args, node.keywords), node)
+        return node
+    def visit_Attribute(self, node):
+        self.generic_visit(node)
+        if isinstance(node.ctx, ast.Load) and isinstance(node.value, ast.Name) and node.value.id == 'str' and not node.attr.startswith('_'):
+            # str.lower / str.strip ... used as a FUNCTION (key=str.lower): dispatch on the receiver, a symbolic string cannot go through the C descriptor
+            return ast.copy_location(ast.Call(ast.Name('sx__strmeth', ast.Load()), [ast.Constant(node.attr)], []), node)
         return node
     def visit_Compare(self, node):
         self.generic_visit(node)
